@@ -537,12 +537,27 @@ Proof.
 Qed.
 
 (* ---------- discrete bookkeeping ------------------------------------------------------------- *)
-Lemma orbit_ok_iff orbit modes : orbit_ok orbit modes = true <-> (length orbit <= modes)%nat.
+(* prob_orbit_exact never hands fock_prob a pattern of the wrong length; it returns 0.0 early exactly for orbits with
+   more parts than modes, and otherwise the padded pattern has one entry per mode *)
+Lemma orbit_accepts_all orbit modes :
+  orbit_accepts orbit modes = true
+  /\ (orbit_early_zero orbit modes = true <-> (modes < length orbit)%nat)
+  /\ (orbit_early_zero orbit modes = false -> length (orbit_click orbit modes) = modes).
 Proof.
-  unfold orbit_ok, orbit_click. rewrite Nat.eqb_eq, app_length, repeat_length. lia.
+  unfold orbit_accepts, orbit_early_zero, orbit_click.
+  destruct (Nat.ltb modes (length orbit)) eqn:E.
+  - apply Nat.ltb_lt in E. repeat split; auto; discriminate.
+  - apply Nat.ltb_ge in E. rewrite app_length, repeat_length.
+    repeat split; try (intros; lia); try discriminate.
+    apply Nat.eqb_eq. lia.
 Qed.
 
-Lemma orbit_refuted : exists orbit modes, fold_right Nat.add O orbit = 4%nat /\ orbit_ok orbit modes = false.
+Lemma orbit_accepts_old_iff orbit modes : orbit_accepts_old orbit modes = true <-> (length orbit <= modes)%nat.
+Proof.
+  unfold orbit_accepts_old, orbit_click. rewrite Nat.eqb_eq, app_length, repeat_length. lia.
+Qed.
+
+Lemma orbit_old_refuted : exists orbit modes, fold_right Nat.add O orbit = 4%nat /\ orbit_accepts_old orbit modes = false.
 Proof. exists [1;1;1;1]%nat, 3%nat. split; reflexivity. Qed.
 
 Lemma existsb_negb_forallb z : existsb negb z = negb (forallb (fun b => b) z).
@@ -550,17 +565,21 @@ Proof. induction z as [|[|] z IH]; simpl; auto. Qed.
 Lemma existsb_id_forallb z : existsb (fun b => b) z = negb (forallb negb z).
 Proof. induction z as [|[|] z IH]; simpl; auto. Qed.
 
-Lemma sample_len_iff z : z <> [] ->
-  (sample_len z = 2 * length z)%nat <-> (forallb (fun b => b) z = true \/ forallb negb z = true).
+(* every sample of vibronic.sample has one entry per mode of the 2N-mode protocol *)
+Lemma sample_len_2n z : sample_len z = (2 * length z)%nat.
+Proof. unfold sample_len. destruct (existsb negb z); simpl; lia. Qed.
+
+Lemma sample_len_old_iff z : z <> [] ->
+  (sample_len_old z = 2 * length z)%nat <-> (forallb (fun b => b) z = true \/ forallb negb z = true).
 Proof.
   intros Hz. assert (0 < length z)%nat by (destruct z; [congruence|simpl; lia]).
-  unfold sample_len. rewrite existsb_negb_forallb, existsb_id_forallb.
+  unfold sample_len_old. rewrite existsb_negb_forallb, existsb_id_forallb.
   destruct (forallb (fun b => b) z) eqn:E1, (forallb negb z) eqn:E2; simpl; split; intros; auto; try lia;
     try (exfalso; destruct z as [|[|] z']; simpl in *; congruence);
     try (match goal with H : _ \/ _ |- _ => destruct H; discriminate end).
 Qed.
 
-Lemma sample_len_refuted : exists z, sample_len z <> (2 * length z)%nat.
+Lemma sample_len_old_refuted : exists z, sample_len_old z <> (2 * length z)%nat.
 Proof. exists [true; false]. vm_compute. discriminate. Qed.
 
 Lemma te_thetas_group hundred c femto twopi w t1 t2 :
